@@ -292,6 +292,34 @@ def rule_local_sheet_id(chk, fb):
         n += 1
 
 
+def rule_link_target_verbatim(chk, fb, rid="C06.f"):
+    """The target of an external hyperlink is stored in the sheet's relationships as the model holds it: the reader takes
+    the Target back as it is, so any rewriting on the way out (percent-encoding, trimming, case) comes back as a different
+    URL."""
+    from mirq import Flow
+    from props.C14 import LOSSY, LOSSY_ON_STR
+
+    r = chk.rule(
+        rid,
+        "hyperlink targets are written verbatim: in the sheet relationships writer, the Target handed to the relationship writer for a hyperlink derives from the hyperlink's URL getter through no rewriting or shortening string operation",
+        floor=1,
+    )
+    for d, b in sorted(fb.mir.items()):
+        if not d.startswith("writer::") or "::{closure" in d:
+            continue
+        fl = Flow(fb, b)
+        n = 0
+        for bi, t in fl.calls(lambda t: t.get("fn", "") in fb.mir and t["fn"].split("::")[-1] == "write_relationship"):
+            for a in t["args"]:
+                at = fl.atoms(a, stop_calls=lambda f: f in fb.mir)
+                if not any(x[0] == "call" and x[1].endswith("Hyperlink::get_url") for x in at):
+                    continue
+                cuts = sorted({x[1].split("::")[-1] for x in at if x[0] == "call" and x[1].split("::")[-1] in LOSSY + LOSSY_ON_STR + ("replace", "replacen", "to_lowercase", "trim") and x[1].split("::")[-1] not in ("get", "index")})
+                chk.touch(d)
+                chk.ob(r, "%s:hyperlink-target#%d" % (d.split("::", 1)[-1], n), not cuts, where="%s:%s" % (b["file"], t.get("ln")), detail="string operations between the URL and the Target: %s" % (cuts or "none"))
+                n += 1
+
+
 def run(chk, fb, tier):
     # C06.a hyperlink <-> relationship pairing
     C02.rule_rid_pairs(chk, fb)
@@ -308,6 +336,9 @@ def run(chk, fb, tier):
     symmetry.rule_attr_guards(chk, fb, "C06.b.guards")
     symmetry.rule_empty_covers_children(chk, fb, "C06.b.children")
     symmetry.rule_collected_then_filed(chk, fb, "C06.b.filed")
+    symmetry.rule_text_untrimmed(chk, fb, "C06.b.trim")
+    symmetry.rule_all_written(chk, fb, "C06.b.written")
+    rule_link_target_verbatim(chk, fb)
     rule_sheet_list(chk, fb)
     # C06.c sheet-name uniqueness
     C02.rule_sheet_names(chk, fb, "C06.c")
